@@ -220,5 +220,19 @@ PROPS.update({
     },
 })
 
+PROPS.update({
+    "C20": {
+        "level": "proof",
+        "text": "Kernel-checked on the collector translated from src/metrics/collector.rs on every run: count_len (message_count = number of records, any sequence), count_monotone / never_decreases, avg_le_max (via the invariant total <= count*max, saturation included), max_ge_each (max >= every recorded duration, capped at u64::MAX ns), snapshot_agrees; on the actor model: count_exact (in every reachable state message_count + [a handler is running] = number of handlers entered; stop markers and leftovers never enter a handler), max_ge_handler. The guard (records once, on drop, elapsed time) and its placement (one site, envelope arm, straight before the handler call, alive to the end of the arm) are extracted shape lemmas. Real side: harness built with the metrics feature (and all others); after every macro-step of every seeded script every live strong or weak-upgradable handle is read: message_count() = handlers entered and left (harness's own counter), never decreases, avg <= max, max >= the longest time measured strictly inside a handler body, metrics() snapshot = accessors, all handles agree, values stay readable after the actor ended (handles outlive it in most scripts); translation differential for the collector (tables).",
+        "note": PROOF_NOTE + " Durations come from std::time::Instant; the oracle compares max against a lower bound measured inside the handler, never against exact times.",
+        "technique": "Lean 4 proofs on the translated collector and on the actor model + extracted guard placement + metrics oracle at every quiescent point of the correspondence runs (metrics build)",
+        "monitors": ["C04"],
+        "extra": ["featcorr", "tables"],
+        "corr": corr(["mixed", "shutdown"], nq=60, nt=500),
+        "extract_items": ["Metrics", "metrics_guard_drop", "metrics_placement", "lifecycle"],
+        "assumptions": COMMON_ASSUME + ["Relaxed atomics: readers at quiescence see all earlier records (the harness reads after the actor task has yielded)"],
+    },
+})
+
 NOT_APPLICABLE = {p: "check not built yet in this session (work in progress; see DESIGN.md §12 build order)" for p in
                   ["C%02d" % i for i in range(1, 21)]}
